@@ -56,6 +56,11 @@ CurHighestUnowned(e) == (AtEnd(e) /\ e.seen.unowned) => Highest(e)
 CurHighestAfterStrip(e) == (AtEnd(e) /\ ~e.seen.unowned /\ e.stripped) => Highest(e)
 CurHighest(e) == (AtEnd(e) /\ ~e.seen.unowned /\ ~e.stripped) => Highest(e)
 
+\* ... and the Composition controls it (again): Automatic XRs choose among the revisions the Composition controls, so a
+\* current revision left without its controller reference after a restore sends them back to older content
+\* (added after the seeded change C12-m9 - re-adoption skipped for the revision that already has the highest number - was missed)
+CurControlled(e) == AtEnd(e) => \A r \in CurRevs(e) : r.ctrl = "comp"
+
 \* ---- XR side: APIRevisionFetcher.Fetch
 IsFetch(e) == e.ev = "fetch"
 \* Manual: the referenced revision is returned and stays referenced
@@ -80,6 +85,7 @@ Check(i) ==
   /\ (CurHighest(e) \/ Viol("CurrentHighest", i))
   /\ (CurHighestUnowned(e) \/ Viol("CurrentHighest.ListedUnowned", i))
   /\ (CurHighestAfterStrip(e) \/ Viol("CurrentHighest.AfterStrip", i))
+  /\ (CurControlled(e) \/ Viol("CurrentHighest.Controlled", i))
   /\ (Manual(e) \/ Viol("Manual", i))
   /\ (Automatic(e) \/ Viol("Automatic", i))
   /\ (e.ev = "reset" \/ i = 1 \/
